@@ -326,6 +326,17 @@ class EditStream(HTMLHandlerBase):
             params = flask.request.form
         if not hasattr(params, 'get'):
             return flask.make_response('Invalid request', 400)
+        # the token is checked before anything is modified: checking it
+        # commits the database session (the token is recorded as used)
+        try:
+            self.check_csrf('streams', params)
+        except (ValueError, CsrfFailureException) as cfe:
+            logging.debug("csrf check failed")
+            logging.debug(cfe)
+            if is_ajax():
+                return jsonify({'error': 'CSRF failure'}, 401)
+            flask.flash(f'CSRF error: {cfe}', 'error')
+            return flask.redirect(flask.url_for('view-stream', spk=spk))
         needs_directory: bool = models.MediaFile.count(stream=current_stream) == 0
         for name in ['title', 'directory', 'marlin_la_url', 'playready_la_url', 'timing_ref']:
             value = params.get(name)
@@ -352,18 +363,6 @@ class EditStream(HTMLHandlerBase):
                 return flask.make_response(
                     f'Invalid timing_reference "{html.escape(timing_reference)}"', 400)
             current_stream.set_timing_reference(mf.as_stream_timing_reference())
-        try:
-            self.check_csrf('streams', params)
-        except (ValueError, CsrfFailureException) as cfe:
-            logging.debug("csrf check failed")
-            logging.debug(cfe)
-            # nothing of the request is kept; the page is rendered again by
-            # its GET handler, which knows everything the template needs
-            models.db.session.rollback()
-            if is_ajax():
-                return jsonify({'error': 'CSRF failure'}, 401)
-            flask.flash(f'CSRF error: {cfe}', 'error')
-            return flask.redirect(flask.url_for('view-stream', spk=spk))
         models.db.session.commit()
         if is_ajax():
             return jsonify(current_stream.toJSON())
